@@ -2,7 +2,7 @@
 # keep_seed.py <Cxx> <a|b> "<what it breaks>" "<what it needs to manifest>" "<detected by ...>"
 import sys, os, shutil, json, glob
 prop, x, breaks, needs, detected = sys.argv[1:6]
-src=f"/tmp/seed-out/{prop}"
+src=os.environ.get("ROOT","/tmp/seed-out")+f"/{prop}"
 dst=f"/verif/seeded/{prop}{x}"
 os.makedirs(dst, exist_ok=True)
 shutil.copy(f"{src}/{x}.patch.diff", f"{dst}/patch.diff")
